@@ -120,6 +120,8 @@ def prune(d, keep):
 
 
 def build_harnesses(cfgs, source="aj_harness.cpp"):
+    if not cfgs:
+        return []
     with ThreadPoolExecutor(max_workers=min(len(cfgs), NCPU)) as ex:
         res = list(ex.map(lambda c: build_harness(c, source), cfgs))
     return res
